@@ -281,6 +281,7 @@ package ggql
 //@ func (*List).Write
 //@   props C03
 //@   check panic {C03}
+//@   requires w != nil
 //@   requires recv != nil
 
 //@ func (*List).Extend
@@ -341,6 +342,7 @@ package ggql
 //@ func (*NonNull).Write
 //@   props C03
 //@   check panic {C03}
+//@   requires w != nil
 //@   requires recv != nil
 
 //@ func (*NonNull).Extend
@@ -376,6 +378,7 @@ package ggql
 //@ func (*Object).Write
 //@   props C03
 //@   check panic {C03}
+//@   requires w != nil
 //@   requires recv != nil
 
 //@ func (*Object).GetField
@@ -406,6 +409,7 @@ package ggql
 //@ func (*Ref).Write
 //@   props C03
 //@   check panic {C03}
+//@   requires w != nil
 //@   requires recv != nil
 
 //@ func (*Ref).Rank
@@ -499,11 +503,6 @@ package ggql
 //@   check panic {C03}
 //@   requires recv != nil
 
-//@ func (*Root).assureSchema
-//@   props C03
-//@   check panic {C03}
-//@   requires recv != nil
-
 //@ func (*Scalar).Rank
 //@   props C03
 //@   check panic {C03}
@@ -537,6 +536,7 @@ package ggql
 //@ func (*Schema).Write
 //@   props C03
 //@   check panic {C03}
+//@   requires w != nil
 //@   requires recv != nil
 
 //@ func (*SelBase).Directives
